@@ -75,12 +75,17 @@ Definition rel_json (o : option (list string)) : res json :=
   match o with Some r => Ok (JStr (unparts r)) | None => Err EValue end.
 
 (* Object.relative_filepath: relative to the working directory; a regular file path that is not below it is
-   returned as it is, a namespace package none of whose directories is below it raises ValueError *)
+   returned as it is, and so is the first directory of a namespace package none of whose directories is below it
+   (bb0db70; `self.filepath[0]` of an empty list is an IndexError, which no loaded tree can reach) *)
 Definition rel_cwd (cwd : list string) (fp : fpath) : res json :=
   match fp with
   | FPNone => Err EBuiltin
   | FPStr s => Ok (JStr (match relative_parts cwd (parts s) with Some r => unparts r | None => s end))
-  | FPList l => rel_json (first_some (map (fun s => relative_parts cwd (parts s)) l))
+  | FPList l => match first_some (map (fun s => relative_parts cwd (parts s)) l), l with
+                | Some r, _ => Ok (JStr (unparts r))
+                | None, s :: _ => Ok (JStr s)
+                | None, [] => Err EUnmodelled
+                end
   end.
 
 (* Object.relative_package_filepath: relative to the directory that contains the top-level package *)
